@@ -10,6 +10,7 @@ search: models whose names are SQL keywords / contain `_cte` / `_raw` / mixed ca
 """
 from __future__ import annotations
 
+import re
 from collections import Counter
 
 from harness.common import Check, Driver, canon
@@ -36,8 +37,25 @@ def gen_model(rng):
                      {"name": names[4], "agg": rng.choice(["sum", "count_distinct", "median"]), "sql": "num_col"}, {"name": names[5], "agg": "count"},
                      {"name": names[6], "type": "ratio", "numerator": "comp_a", "denominator": "comp_n"},
                      {"name": names[7], "type": "derived", "sql": "comp_a + comp_n"},
-                     {"name": "expr_m", "sql": "SUM(num_col) / NULLIF(COUNT(*), 0)"}],
+                     {"name": "expr_m", "sql": rng.choice(["SUM(num_col) / NULLIF(COUNT(*), 0)", "SUM(num_col) / NULLIF(COUNT(*), 0)", "SUM({model}.num_col) / NULLIF(COUNT(*), 0)"])},
+                     {"name": "inline_m", "sql": rng.choice(["AVG(num_col * 2)", "MAX({model}.num_col + 1)", "COUNT(DISTINCT {model}.cat_col)"])}],
          "segment": {"name": names[8], "sql": "{model}.cat_col = 'a'"}}
+    # formula metrics over a random dependency graph (chains, diamonds, and — rarely — cycles, which must be rejected at
+    # registration or else be usable), at model level and at graph level
+    fn = ["f0", "f1", "f2"][:rng.choice([0, 1, 2, 3])]
+    for f in fn:
+        pool = ["comp_a", "comp_n"] + [x for x in fn if x != f or rng.random() < 0.15]
+        if rng.random() < 0.5:
+            d["metrics"].append({"name": f, "type": "derived", "sql": f"{rng.choice(pool)} {rng.choice('+-*')} {rng.choice(pool)}"})
+        else:
+            d["metrics"].append({"name": f, "type": "ratio", "numerator": rng.choice(pool), "denominator": rng.choice(["comp_n", "comp_n", rng.choice(pool)])})
+    # (a keyword model name inside a user-written formula is the user's SQL: graph-level formulas only over benign model names)
+    gn = ["g0", "g1", "g2"][:rng.choice([0, 1, 2, 3])] if mname not in KW else []
+    d["graph_metrics"] = []
+    for g in gn:
+        pool = [f"{mname}.comp_a", f"{mname}.comp_n"] + [x for x in gn if x != g or rng.random() < 0.15]
+        d["graph_metrics"].append({"name": g, "type": "derived", "sql": f"{rng.choice(pool)} {rng.choice('+-*')} {rng.choice(pool)}"})
+    rng.shuffle(d["graph_metrics"])
     return d
 
 
@@ -52,6 +70,13 @@ def build(d):
         kw["table"] = f'"{mname}_t"' if d["quoted_table"] else f"{mname}_t"
     layer = SemanticLayer(auto_register=False)
     layer.add_model(Model(**kw))
+    layer.accepted_graph_metrics = []
+    for gm in d.get("graph_metrics", []):
+        try:
+            layer.add_metric(Metric(**gm))
+            layer.accepted_graph_metrics.append(gm["name"])
+        except Exception:  # noqa: BLE001 — a rejected definition is outside "accepted"
+            pass
     con = layer.conn
     con.execute("SET threads=1")
     con.execute(f'CREATE TABLE "{mname}_t" (id_col BIGINT, cat_col VARCHAR, num_col BIGINT, ts_col TIMESTAMP)')
@@ -59,9 +84,19 @@ def build(d):
     return layer
 
 
-def single_field_queries(d):
+def single_field_queries(d, layer=None):
     mn = d["name"]
-    qs = []
+    # graph-level metrics whose (transitive) metric references were all accepted: a formula naming a metric that was never
+    # registered — e.g. because that one was refused as circular — is a dangling reference, not an accepted definition
+    acc = set(getattr(layer, "accepted_graph_metrics", []) if layer is not None else [])
+    gdeps = {g["name"]: {t for t in re.findall(r"\bg\d\b", g["sql"])} for g in d.get("graph_metrics", [])}
+    closed = set(acc)
+    while True:
+        drop = {g for g in closed if not gdeps[g] <= closed}
+        if not drop:
+            break
+        closed -= drop
+    qs = [(f"graph-level metric {g}", dict(metrics=[g], dimensions=[])) for g in sorted(closed)]
     for x in d["dims"]:
         qs.append((f"dimension {x['name']} ({x['type']})", dict(metrics=[], dimensions=[f"{mn}.{x['name']}"])))
         if x["type"] == "time":
@@ -71,6 +106,42 @@ def single_field_queries(d):
         qs.append((f"metric {x['name']} ({x.get('type') or x.get('agg') or 'expression'})", dict(metrics=[f"{mn}.{x['name']}"], dimensions=[])))
     qs.append((f"segment {d['segment']['name']}", dict(metrics=[f"{mn}.comp_n"], dimensions=[], segments=[f"{mn}.{d['segment']['name']}"])))
     return qs
+
+
+class memory_guard:
+    """bound the address space while the real compile() runs: an unbounded expansion (a formula inlined into itself) then
+    ends in MemoryError / RecursionError, which is reported as a failing input, instead of the check being killed"""
+    def __init__(self, gb=3, seconds=15):
+        self.gb = gb
+        self.seconds = seconds
+
+    def __enter__(self):
+        import resource
+        self.old = resource.getrlimit(resource.RLIMIT_AS)
+        vm = 0
+        for line in open("/proc/self/status"):
+            if line.startswith("VmSize:"):
+                vm = int(line.split()[1]) * 1024
+        lim = vm + self.gb * (1 << 30)
+        if self.old[1] != resource.RLIM_INFINITY:
+            lim = min(lim, self.old[1])
+        resource.setrlimit(resource.RLIMIT_AS, (lim, self.old[1]))
+        # ... and the time: a formula that references itself twice per level doubles the work at every level long before it
+        # reaches any depth or memory limit
+        import signal
+
+        def on_alarm(signum, frame):
+            raise TimeoutError(f"compile() did not finish within {self.seconds}s")
+        self.old_handler = signal.signal(signal.SIGALRM, on_alarm)
+        signal.setitimer(signal.ITIMER_REAL, self.seconds)
+
+    def __exit__(self, *a):
+        import resource
+        import signal
+        signal.setitimer(signal.ITIMER_REAL, 0)
+        signal.signal(signal.SIGALRM, self.old_handler)
+        resource.setrlimit(resource.RLIMIT_AS, self.old)
+        return False
 
 
 def positive(ck, rng, n, stats):
@@ -83,13 +154,24 @@ def positive(ck, rng, n, stats):
             stats["definition_rejected:" + type(e).__name__] += 1
             continue
         stats["models_accepted"] += 1
-        # known class (decided from the input): a metric or dimension named like a physical column that other definitions use raw
-        fkey = "F35-metric-named-like-referenced-column" if any(x["name"] in ("id_col", "cat_col", "num_col", "ts_col") for x in d["metrics"] + d["dims"]) else None
-        for what, q in single_field_queries(d):
+        fieldnames = {x["name"] for x in d["metrics"] + d["dims"]}
+        for what, q in single_field_queries(d, layer):
+            # known class (decided from the input): the queried definition uses a physical column raw while another field of
+            # the model carries that column's name
+            fkey = None
+            if (what.startswith("metric expr_m") and "num_col" in fieldnames) or (what.startswith("segment") and "cat_col" in fieldnames):
+                fkey = "F35-metric-named-like-referenced-column"
+            if what.startswith("metric expr_m") and "{model}" in next(x["sql"] for x in d["metrics"] if x["name"] == "expr_m"):
+                fkey = "F39-placeholder-in-expression-metric"
             stats["single_field_queries"] += 1
+            if stats["compile_blowups"] >= 5:
+                break             # every further one costs the full time/memory bound
             try:
-                sql = layer.compile(**q)
+                with memory_guard():
+                    sql = layer.compile(**q)
             except Exception as e:  # noqa: BLE001
+                if isinstance(e, (RecursionError, MemoryError, TimeoutError)):
+                    stats["compile_blowups"] += 1
                 ck.fail_input(f"accepted model: querying {what} by itself raises {type(e).__name__} at compile time",
                               {"model": d, "query": q, "error": repr(e)[:300]}, finding_key=fkey)
                 continue
@@ -202,6 +284,75 @@ def mft(ck, rng, stats):
     return bad
 
 
+def cycles(ck, rng, n, stats):
+    """the registration check for circular formula metrics vs the Lean `acyclic` on random dependency graphs; accepted
+    definitions must then be usable (each formula metric compiles and executes)"""
+    from sidemantic import Dimension, Metric, Model, SemanticLayer
+    try:
+        from sidemantic.validation import _find_model_metric_cycle
+    except ImportError as e:
+        ck.obligation("correspondence C20: _find_model_metric_cycle vs Cyc.acyclic", False, f"function not found: {e!r}")
+        return 1
+    graphs, reals, models = [], [], []
+    for _ in range(n):
+        # metric names that share leading characters with the model name (qualified references are resolved by prefix)
+        mn = rng.choice(["m", "orders", "model", "sd"])
+        names = rng.sample(["f0", "f1", "effective", "discounted", "o", "rs", "so", "mm", "dd", "e1", "order_s", "m0", "sdx", "el"], rng.randint(1, 5))
+        mets = [Metric(name="b", agg="sum", sql="num_col"), Metric(name="c", agg="count")]
+        g = []
+        for nm in names:
+            deps = [rng.choice(names + ["b", "c", "b"]) for _ in range(rng.choice([1, 2, 2, 3]))]
+            ref = lambda d: (mn + "." + d) if rng.random() < 0.4 else d
+            if rng.random() < 0.6 or len(deps) < 2:
+                mets.append(Metric(name=nm, type="derived", sql=" + ".join(ref(d) for d in deps)))
+                used = deps
+            else:
+                mets.append(Metric(name=nm, type="ratio", numerator=ref(deps[0]), denominator=ref(deps[1])))
+                used = deps[:2]
+            g.append([nm, sorted({d for d in used if d in names})])
+        rng.shuffle(mets)
+        model = Model(name=mn, table="m_t", primary_key="id_col", dimensions=[Dimension(name="cat", type="categorical", sql="cat_col")], metrics=mets)
+        graphs.append(g)
+        models.append(model)
+        reals.append(_find_model_metric_cycle(model) is None)
+    bad = 0
+    for g, real, model, lean in zip(graphs, reals, models, Driver().run([{"op": "c20.acyclic", "graphs": graphs}])[0]):
+        stats["dependency_graphs"] += 1
+        stats["cyclic_graphs"] += 0 if real else 1
+        if real != lean:
+            bad += 1
+            if bad <= 3:
+                ck.obligation("correspondence C20: _find_model_metric_cycle vs Cyc.acyclic", False, f"graph={g} real_acyclic={real} model_acyclic={lean}")
+        layer = SemanticLayer(auto_register=False)
+        try:
+            layer.add_model(model)
+            accepted = True
+        except Exception:  # noqa: BLE001
+            accepted = False
+        if accepted != real:
+            ck.fail_input(f"add_model {'accepts' if accepted else 'refuses'} formula metrics whose dependency graph {g} is {'acyclic' if real else 'cyclic'}", {"graph": g})
+            continue
+        if not accepted:
+            continue
+        if stats["formula_blowups"] >= 3:
+            continue          # the failing inputs are recorded; every further one costs the full time/memory bound
+        layer.conn.execute("CREATE TABLE m_t (id_col BIGINT, cat_col VARCHAR, num_col BIGINT)")
+        layer.conn.execute("INSERT INTO m_t VALUES (1,'a',5),(2,'b',7)")
+        for nm, _ in g:
+            try:
+                with memory_guard():
+                    sql = layer.compile(metrics=[f"{model.name}.{nm}"])
+                layer.conn.execute(sql).fetchall()
+                stats["formula_metrics_usable"] += 1
+            except Exception as e:  # noqa: BLE001
+                ck.fail_input(f"accepted formula metric {nm} of dependency graph {g} is not usable: {type(e).__name__}", {"graph": g, "metric": nm, "error": repr(e)[:300]})
+                stats["formula_blowups"] += 1
+                break
+    if bad == 0:
+        ck.obligation("correspondence C20: _find_model_metric_cycle vs Cyc.acyclic", True, f"{len(graphs)} dependency graphs ({stats['cyclic_graphs']} cyclic)")
+    return bad
+
+
 def run(ck: Check):
     ck.prove("SideVerif.Properties.C20")
     stats = Counter()
@@ -213,10 +364,11 @@ def run(ck: Check):
         ck.obligation("correspondence C20: _model_from_table vs modelFromTable", False, f"function not found: {e!r}")
         bad += 1
     bad += negative(ck, ck.rng, 1500 if thorough else 250, stats)
+    bad += cycles(ck, ck.rng, 1500 if thorough else 300, stats)
     positive(ck, ck.rng, (400 if thorough else 60) * (3 if (bad or ck.broken) else 1), stats)
     ck.coverage.update({
-        "evaluations": stats["single_field_queries"] + stats["ill_formed_queries"] + stats["qualifiers"], "distinct_nontrivial": stats["executed_ok"],
-        "rule": f"models named from a pool of {len(POOL)} identifiers ({len(KW)} SQL keywords, names containing _cte / _raw, mixed case, names equal to physical columns and to the generator's own aliases) with four dimension types, simple/ratio/derived/expression metrics and a segment, composite keys, sql-backed, quoted table names: every single-field query (each granularity) compiled and executed; ill-formed references from C07's generator (unknown model/field, misspelt, wrong or misplaced granularity, missing prefix, extra dots) and disconnected models; _model_from_table on hostile qualifiers",
+        "evaluations": stats["single_field_queries"] + stats["ill_formed_queries"] + stats["qualifiers"] + stats["dependency_graphs"], "distinct_nontrivial": stats["executed_ok"],
+        "rule": f"models named from a pool of {len(POOL)} identifiers ({len(KW)} SQL keywords, names containing _cte / _raw, mixed case, names equal to physical columns and to the generator's own aliases) with four dimension types, simple/ratio/derived/expression metrics, 0-3 further derived/ratio metrics over a random dependency graph (chains, diamonds, rarely cycles) at model level and at graph level, and a segment, composite keys, sql-backed, quoted table names: every single-field query (each granularity) compiled and executed; ill-formed references from C07's generator (unknown model/field, misspelt, wrong or misplaced granularity, missing prefix, extra dots) and disconnected models; _model_from_table on hostile qualifiers; random dependency graphs (1-5 derived/ratio metrics, 1-3 references each, self-references and cycles of every length) through the registration check, add_model and compile",
         "stats": dict(stats), "traces_validated_against_impl": stats["ill_formed_queries"] + stats["qualifiers"],
     })
     ck.assumptions += ["names are identifier-shaped ([A-Za-z_][A-Za-z0-9_]*, no double underscore); physical column names and the names used INSIDE user-written formulas are benign (unquoted keywords there are the user's SQL)",
